@@ -71,6 +71,16 @@ TEXT = {
  "C06": ("mean", "Probe samples with exactly known standard error for every degrees-of-freedom row of the reference table x all levels x kinds: the implied critical value must lie in the "
          "enclosure of the true quantile (tables generated at 60 digits, axioms incl. the exact nu = 2 closed form checked by TLC); z of proportion intervals by the root enclosure.",
          "TLC trace validation against reference tables whose axioms are model-checked"),
+ "C08": ("kahan", "KahanSum is a TLA+ state machine over an exactly modelled float format (binary32 on integers); TLC checks |value - exact| <= 16 u sum|x| in every reachable "
+         "state of all short sequences with merges (the constant does not depend on the length), enumerates every short program of that machine for the real "
+         "KahanSum<f32/f64>, and validates long streams given as block descriptors by carrying the exact sum (arbitrary precision) through the trace.",
+         "TLC model checking of the reference algorithm + BFS program enumeration + trace validation with exact ghost state"),
+ "C10": ("relate", "Relational clauses over groups of calls on the same input: the trace validator carries the table (kind, level) -> bounds of a producer and TLC checks result kind, "
+         "nesting in the level, one-sided(L) = two-sided(2L-1) and containment of the point estimate for all seven producers.",
+         "TLC trace validation with carried tables (relational clauses over pairs of recorded calls)"),
+ "C16": ("relate", "Each base call is followed by transformed calls; TLC compares the float encodings: exponent shift for power-of-two scaling and sign/ends exchange for negation are "
+         "required bit-exactly, shifts and reorderings within rounding; includes all permutations of small samples and 10^5..10^6-term streams in several orders (f32 and f64).",
+         "TLC trace validation with carried base outcome (bit-exact relational clauses on float encodings)"),
 }
 PENDING_REASON = "check not built yet in this round (planned, see DESIGN.md section 4); not claimed"
 
@@ -121,6 +131,12 @@ def main():
             {"name": "mean", "path": "spec/Mean.tla spec/Gen_Mean.tla spec/Trace_Mean.tla spec/Rng.tla spec/RefTables.tla",
              "serves_properties": ["C01", "C04", "C05", "C06", "C10", "C16"],
              "kind_free_text": "exact statistics of run-length samples and bound judges over dyadic arithmetic; reference tables; grouped relational clauses"},
+            {"name": "kahan", "path": "spec/Kahan.tla spec/MC_Kahan.tla spec/Gen_Kahan.tla spec/Trace_Kahan.tla harness/src/kahan.rs",
+             "serves_properties": ["C08"],
+             "kind_free_text": "compensated summation as a state machine in an exact float model; BFS programs; stream descriptors"},
+            {"name": "relate", "path": "spec/Gen_Relate.tla spec/Trace_Relate.tla",
+             "serves_properties": ["C10", "C16"],
+             "kind_free_text": "grouped relational validator"},
             {"name": "interval", "path": "spec/Interval.tla spec/IntervalSession.tla spec/MC_Interval.tla spec/Gen_Interval.tla spec/Trace_Interval.tla",
              "serves_properties": ["C07", "C13", "C14", "C15", "C19"],
              "kind_free_text": "TLA+ value algebra of intervals as closed sets; TLC model check + generator + trace validator"},
